@@ -31,6 +31,7 @@
 #include <signal.h>
 #include <fcntl.h>
 #include <pthread.h>
+#include <sqlite3.h>
 
 using namespace bloc;
 
@@ -388,6 +389,23 @@ static std::string runCli(const vj::Val& st) {
   return o;
 }
 
+// a private scratch directory of this worker process (removed at the end of every scenario)
+static std::string g_tmpdir;
+static std::string tmpDir() {
+  if (g_tmpdir.empty()) {
+    const char* wd = getenv("VDRIVE_WORK");
+    g_tmpdir = std::string(wd ? wd : "/tmp") + "/tmp." + std::to_string((long)getpid());
+    mkdir(g_tmpdir.c_str(), 0755);
+  }
+  return g_tmpdir;
+}
+static void cleanTmp() {
+  if (g_tmpdir.empty()) return;
+  std::string cmd = "rm -rf '" + g_tmpdir + "'";
+  if (system(cmd.c_str()) != 0) {}
+  g_tmpdir.clear();
+}
+
 // environment-specific paths in generated texts: @MOD:name@ -> path of the module library, @INC@ -> an include file
 static std::string subst(std::string t) {
   const char* mods = getenv("BLOC_MODULES");
@@ -400,11 +418,53 @@ static std::string subst(std::string t) {
     t.replace(p, e - p + 1, std::string(mods ? mods : ".") + "/" + n + "/libbloc_" + n + ".so");
   }
   while ((p = t.find("@INC@")) != std::string::npos) t.replace(p, 5, inc ? inc : "/nonexistent");
+  while ((p = t.find("@TMP@")) != std::string::npos) t.replace(p, 5, tmpDir());
   return t;
 }
 
 static std::string doStep(const vj::Val& st) {
   std::string op = st.str("op");
+  if (op == "sqlitedump") {
+    /* independent reader of the database file: the C library of SQLite itself, not the BLOC module */
+    std::string path = subst(st.str("path"));
+    sqlite3* db = nullptr;
+    std::string rows = "[";
+    std::string oc = "ok";
+    if (sqlite3_open_v2(path.c_str(), &db, SQLITE_OPEN_READONLY, nullptr) != SQLITE_OK) oc = "open_failed";
+    else {
+      sqlite3_stmt* q = nullptr;
+      if (sqlite3_prepare_v2(db, st.str("sql").c_str(), -1, &q, nullptr) != SQLITE_OK) oc = "prepare_failed";
+      else {
+        bool firstrow = true;
+        while (sqlite3_step(q) == SQLITE_ROW) {
+          if (!firstrow) rows += ','; firstrow = false;
+          rows += "[";
+          int nc = sqlite3_column_count(q);
+          for (int c = 0; c < nc; ++c) {
+            if (c) rows += ',';
+            switch (sqlite3_column_type(q, c)) {
+            case SQLITE_INTEGER: rows += intJson(sqlite3_column_int64(q, c)); break;
+            case SQLITE_FLOAT: rows += decJson(sqlite3_column_double(q, c)); break;
+            case SQLITE_TEXT: { const char* t = (const char*)sqlite3_column_text(q, c); int n = sqlite3_column_bytes(q, c); rows += strJson("str", std::string(t ? t : "", n)); break; }
+            case SQLITE_BLOB: { const char* t = (const char*)sqlite3_column_blob(q, c); int n = sqlite3_column_bytes(q, c); rows += "{\"t\":\"raw\",\"b\":" + vj::bytes(t ? t : "", n) + "}"; break; }
+            default: rows += "{\"t\":\"null\"}";
+            }
+          }
+          rows += "]";
+        }
+        sqlite3_finalize(q);
+      }
+    }
+    if (db) sqlite3_close(db);
+    return "{\"op\":\"sqlitedump\",\"oc\":" + vj::q(oc) + ",\"rows\":" + rows + "]}";
+  }
+  if (op == "readfile") {
+    /* independent reader: plain read of the file */
+    std::string path = subst(st.str("path"));
+    struct stat sb; bool ex = stat(path.c_str(), &sb) == 0;
+    std::string data = ex ? slurp(path) : "";
+    return "{\"op\":\"readfile\",\"oc\":\"ok\",\"exists\":" + std::string(ex ? "true" : "false") + ",\"bytes\":" + vj::bytes(data.data(), data.size()) + "}";
+  }
   int id = (int)st.num("ctx", 0);
   std::string o = "{\"op\":" + vj::q(op);
   try {
@@ -661,7 +721,7 @@ static std::string doStep(const vj::Val& st) {
     else if (op == "expr") {
       /* compile an expression, record its static type, evaluate it (twice if asked) */
       Ctx& c = getCtx(id);
-      StringReader rd(st.str("text") + ";");
+      StringReader rd(subst(st.str("text")) + ";");
       Parser* p = Parser::createInteractiveParser(*c.ctx, rd);
       Expression* e = nullptr;
       std::string oc = "ok"; int no = 0; std::string name;
@@ -890,6 +950,7 @@ int main(int argc, char** argv) {
         while (!g_ctx.empty()) freeCtx(g_ctx.begin()->first);
         o += ",\"evend\":" + drainVobj();
         freeAll();
+        cleanTmp();
         alarm(0);
         int leaked = 0;
         if (leakcheck && __lsan_do_recoverable_leak_check) leaked = __lsan_do_recoverable_leak_check();
